@@ -22,6 +22,7 @@ package lib
 import (
 	"bytes"
 	"fmt"
+	"strings"
 	"testing"
 
 	pb "github.com/refraction-networking/conjure/proto"
@@ -206,7 +207,11 @@ func c01IngestCheck(t vh.Fataler, rec *vh.Rec, env *c01Env, ic *c01IngestCase) {
 			classes = append(classes, pos+":"+ic.Base.Transport)
 		}
 		for _, v := range vs {
-			viols = append(viols, c01Viol{"ingest:" + pos + ":" + v.Key, fmt.Sprintf("[%s, %s registration of a %s message through parseRegMessage + ingest] %s", pos, map[bool]string{false: "IPv4", true: "IPv6"}[fams[i]], stack, v.Msg)})
+			key := "ingest:" + pos + ":" + v.Key
+			if strings.HasPrefix(v.Key, "emptygroup:") {
+				key = v.Key // same root cause whichever path builds the registration
+			}
+			viols = append(viols, c01Viol{key, fmt.Sprintf("[%s, %s registration of a %s message through parseRegMessage + ingest] %s", pos, map[bool]string{false: "IPv4", true: "IPv6"}[fams[i]], stack, v.Msg)})
 		}
 	}
 	// both families of one client share the secret: tag-type identifiers and obfs4 keys are the same
